@@ -76,6 +76,11 @@ fn main() {
             "gc-run" => gc::run_script(s, &mut buf),
             "eng-run" => eng::run_script(s, &mut buf),
             "frp-run" => frp::run_script(s, &mut buf, true),
+            "frp-heap" => {
+                // same as frp-run, with the table of the reachable heap printed at every audited line
+                std::env::set_var("VERIF_HEAP_DUMP", "1");
+                frp::run_script(s, &mut buf, true)
+            }
             "frp-multi" => frp::run_multi(s, &mut buf),
             "frp-threads" => frp::run_threads(s, &mut buf),
             "thr-run" => thr::run_script(s, &mut buf),
